@@ -577,3 +577,44 @@ package vegeta
 //@   loop 3
 //@     invariant !held(&rd.Mutex) && tgt != nil && tgt == old(tgt) && tgt.Header != nil && fresh(tgt.Header) && tgt.Method != "" && tgt.URL != ""
 //@     invariant forall k string :: cap(tgt.Header[k]) > 0 ==> fresh(tgt.Header[k])
+
+//@ func (*peekingScanner).Err
+//@   inline
+//@ func (*peekingScanner).Peek
+//@   inline
+//@ func (*peekingScanner).Scan
+//@   inline
+//@ func (*peekingScanner).Text
+//@   inline
+//@ func startsWithHTTPMethod
+//@   trusted
+//@   modifies nothing
+
+// HTTP targeter: the whole decode is one critical section under mu; it writes only *tgt, the
+// scanner state and fresh memory (frame): neither the defaults nor any target returned earlier.
+//@ func NewHTTPTargeter$1
+//@   property C14 C15
+//@   returns (err)
+//@   guarded peekingScanner by &mu
+//@   guarded bufio.Scanner by &mu
+//@   requires [scanner-ready] sc.src != nil && !held(&mu)
+//@   requires [package-initialised] ErrNilTarget != nil && ErrNoTargets != nil
+//@   modifies *tgt, sc.peeked, *sc.src
+//@   ensures [nil-target-rejected] tgt == nil ==> err == ErrNilTarget
+//@   ensures [own-header-map] err == nil ==> tgt.Header != nil && fresh(tgt.Header)
+//@   ensures [own-header-values] err == nil ==> (forall k string :: cap(tgt.Header[k]) > 0 ==> fresh(tgt.Header[k]))
+//@   ensures [lock-released] !held(&mu)
+//@   loop 1
+//@     invariant held(&mu) && tgt != nil && tgt == old(tgt) && sc.src == old(sc.src) && sc.src != nil
+//@   loop 2
+//@     invariant held(&mu) && tgt != nil && tgt == old(tgt) && sc.src == old(sc.src) && sc.src != nil && tgt.Header != nil && fresh(tgt.Header) && hdr == old(hdr)
+//@     invariant forall k string :: cap(tgt.Header[k]) > 0 ==> fresh(tgt.Header[k])
+//@   loop 3
+//@     invariant held(&mu) && tgt != nil && tgt == old(tgt) && sc.src == old(sc.src) && sc.src != nil && tgt.Header != nil && fresh(tgt.Header)
+//@     invariant forall k string :: cap(tgt.Header[k]) > 0 ==> fresh(tgt.Header[k])
+//@     invariant len(tokens) >= 2
+//@   loop 4
+//@     invariant -1 <= rangeindex && rangeindex < len(tokens) && len(tokens) >= 2 && fresh(tokens)
+//@     invariant held(&mu) && tgt != nil && tgt == old(tgt) && sc.src == old(sc.src) && sc.src != nil && tgt.Header != nil && fresh(tgt.Header)
+//@     invariant forall k string :: cap(tgt.Header[k]) > 0 ==> fresh(tgt.Header[k])
+//@     decreases len(tokens) - rangeindex
